@@ -4,7 +4,9 @@ package strategy
 
 import (
 	"strconv"
+	"time"
 
+	corev1 "k8s.io/api/core/v1"
 	metav1 "k8s.io/apimachinery/pkg/apis/meta/v1"
 
 	datadoghqv1alpha1 "github.com/DataDog/extendeddaemonset/api/v1alpha1"
@@ -88,4 +90,72 @@ func ZZ_C08_pauseFreeze() {
 	nondet.Reach("C08.paused-creates", nondet.And(paused, !frozen, len(res.PodsToCreate) > 0))
 	nondet.Reach("C08.frozen-would-create", nondet.And(frozen, len(ref.PodsToCreate) > 0))
 	nondet.Reach("C08.resumed-deletes", nondet.And(pausedSet, !paused, !frozen, len(res.PodsToDelete) > 0))
+}
+
+// ZZ_C08_canaryPaused: "While a canary is paused, by annotation or by the replica set's own
+// Canary-Paused condition, no additional canary pod is created ... a canary resumes on unpause".
+// One healthy canary pod, one canary node still without its pod; the pause annotation, the
+// unpause annotation and the Canary-Paused condition each absent / true / false.
+func ZZ_C08_canaryPaused() {
+	ds := zzDaemonset(map[string]string{})
+	ds.Spec.Strategy.Canary = &datadoghqv1alpha1.ExtendedDaemonSetSpecStrategyCanary{}
+	datadoghqv1alpha1.DefaultExtendedDaemonSetSpec(&ds.Spec, datadoghqv1alpha1.ExtendedDaemonSetSpecStrategyCanaryValidationModeAuto)
+	rs := zzReplicaSet()
+	condPaused := false
+	if nondet.Bool("condPaused.present") {
+		st := corev1.ConditionStatus(nondet.String("condPaused.status", "True", "False"))
+		condPaused = st == corev1.ConditionTrue
+		rs.Status.Conditions = append(rs.Status.Conditions, datadoghqv1alpha1.ExtendedDaemonSetReplicaSetCondition{
+			Type: datadoghqv1alpha1.ConditionTypeCanaryPaused, Status: st, Reason: "CrashLoopBackOff",
+			LastTransitionTime: metav1.NewTime(nondet.Base().Add(-time.Minute)), LastUpdateTime: metav1.NewTime(nondet.Base().Add(-time.Minute)),
+		})
+	}
+	ann := map[string]string{}
+	annPaused, annUnpaused := false, false
+	if nondet.Bool("annPaused.present") {
+		v := nondet.String("annPaused", "true", "false", "")
+		ann[datadoghqv1alpha1.ExtendedDaemonSetCanaryPausedAnnotationKey] = v
+		annPaused = v == "true"
+	}
+	if nondet.Bool("annUnpaused.present") {
+		v := nondet.String("annUnpaused", "true", "false")
+		ann[datadoghqv1alpha1.ExtendedDaemonSetCanaryUnpausedAnnotationKey] = v
+		annUnpaused = v == "true"
+	}
+	params := &Parameters{
+		EDSName: zzEDSName, Strategy: &ds.Spec.Strategy, Replicaset: rs, ReplicaSetStatus: string(ReplicaSetStatusCanary),
+		NewStatus:  rs.Status.DeepCopy(),
+		NodeByName: map[string]*NodeItem{}, PodByNodeName: map[*NodeItem]*corev1.Pod{},
+	}
+	withPod := nondet.Bool("hasCanaryPod")
+	for i := 0; i < 2; i++ {
+		ni := NewNodeItem(&corev1.Node{ObjectMeta: metav1.ObjectMeta{Name: zzNodeName(i)}}, nil)
+		params.NodeByName[ni.Node.Name] = ni
+		params.CanaryNodes = append(params.CanaryNodes, ni.Node.Name)
+		params.PodByNodeName[ni] = nil
+		if i == 0 && withPod {
+			p := zzPod(i, zzHashNew, 2, true, nondet.Base().Add(-time.Hour))
+			st := metav1.NewTime(nondet.Base().Add(-time.Hour))
+			p.Status.StartTime = &st
+			p.Status.ContainerStatuses = []corev1.ContainerStatus{{Name: "c"}}
+			params.PodByNodeName[ni] = p
+		}
+	}
+	res := manageCanaryStatus(ann, params, nondet.Base())
+	paused := condPaused || annPaused
+	nondet.Fact("paused", paused)
+	nondet.Fact("unpaused", annUnpaused)
+	if paused && !annUnpaused {
+		nondet.Assert("C08.canary.paused-stays", res.IsPaused)
+		nondet.Assert("C08.canary.no-create", len(res.PodsToCreate) == 0)
+	}
+	if !paused || annUnpaused {
+		// "a canary resumes on unpause": a healthy canary keeps filling its nodes
+		nondet.Assert("C08.canary.resumes", !res.IsPaused && len(res.PodsToCreate) >= 1)
+	}
+	nondet.Assert("C08.canary.no-delete", len(res.PodsToDelete) == 0)
+	nondet.Observe("isPaused", res.IsPaused)
+	nondet.Observe("nCreate", len(res.PodsToCreate))
+	nondet.Reach("C08.canary.cond-paused-ann-false", condPaused && !annPaused && len(ann) > 0 && !annUnpaused)
+	nondet.Reach("C08.canary.unpaused", paused && annUnpaused)
 }
